@@ -86,7 +86,7 @@ type plan struct {
 // Methods are case-sensitive tokens (RFC 7231 4.1): the mixed- and lower-case
 // ones are extension methods in their own right ("head" is not HEAD).
 var methods = []string{"GET", "GET", "GET", "GET", "HEAD", "HEAD", "POST", "POST", "POST", "PUT", "PUT", "DELETE", "DELETE", "PATCH", "PATCH", "OPTIONS", "OPTIONS", "QUERYX",
-	"Patch", "get", "M-search", "head", "post", "Options", "PROPFIND", "mkCOL"}
+	"Patch", "get", "M-search", "head", "post", "Options", "PROPFIND", "mkCOL", "TRACE", "OPTIONS"}
 var statuses = []int{200, 200, 200, 201, 204, 206, 301, 304, 404, 500, 503}
 var reasons = map[int]string{200: "OK", 201: "Created", 204: "No Content", 206: "Partial Content", 301: "Moved Permanently", 304: "Not Modified", 404: "Not Found", 500: "Internal Server Error", 503: "Service Unavailable"}
 
@@ -263,10 +263,31 @@ func spell(rng *rand.Rand, name string) string {
 	return name
 }
 
+// Header names are drawn from a pool that includes the fields intermediaries
+// are tempted to interpret (C01's proxy has no modifiers: all of them are
+// end-to-end for it and must arrive unchanged).
 var reqHdrNames = []string{"X-Custom", "X-Trace-Id", "Accept", "Accept-Language", "Cookie", "Cache-Control", "X-Forwarded-For",
-	"Authorization", "Referer", "If-None-Match", "Range", "Content-Type", "Via", "Pragma", "X-Empty", "X_Under.Score", "X-Multi", "X-Multi", "Origin", "If-Modified-Since"}
+	"Authorization", "Referer", "If-None-Match", "Range", "Content-Type", "Via", "Pragma", "X-Empty", "X_Under.Score", "X-Multi", "X-Multi", "Origin", "If-Modified-Since",
+	"Max-Forwards", "If-Match", "If-Unmodified-Since", "If-Range", "Warning", "Date", "Age", "Forwarded", "X-Forwarded-Proto", "X-Forwarded-Host", "X-Real-IP",
+	"From", "DNT", "Content-Encoding", "Content-Language", "Content-Location", "Content-MD5", "Accept-Charset", "Server", "Link", "Priority"}
 var resHdrNames = []string{"Content-Type", "Set-Cookie", "Set-Cookie", "X-Resp", "Cache-Control", "ETag", "Vary", "Server", "Date", "X-Empty",
-	"X-Multi", "X-Multi", "Via", "Warning", "Last-Modified", "Accept-Ranges", "x_under.score", "Link"}
+	"X-Multi", "X-Multi", "Via", "Warning", "Last-Modified", "Accept-Ranges", "x_under.score", "Link",
+	"Age", "Expires", "Content-Language", "Content-Location", "Retry-After", "Allow", "WWW-Authenticate", "Strict-Transport-Security", "Alt-Svc",
+	"Content-Disposition", "X-Content-Type-Options", "Access-Control-Allow-Origin", "Pragma", "Content-MD5", "Max-Forwards", "Forwarded", "Content-Encoding"}
+
+// fixedValue gives the fields whose value syntax matters a value of that syntax.
+func fixedValue(rng *rand.Rand, name string) (string, bool) {
+	switch name {
+	case "Max-Forwards":
+		return []string{"0", "1", "2", "5", "70", "007"}[rng.Intn(6)], true
+	case "Content-Encoding":
+		// never gzip here (see the Accept-Encoding assumption)
+		return []string{"br", "deflate", "identity", "zstd", "x-custom"}[rng.Intn(5)], true
+	case "Age", "Retry-After":
+		return strconv.Itoa(rng.Intn(100000)), true
+	}
+	return "", false
+}
 
 func genHeaders(rng *rand.Rand, names []string, max int) (hs []h1x.Header, raw []string) {
 	n := rng.Intn(max + 1)
@@ -279,6 +300,9 @@ func genHeaders(rng *rand.Rand, names []string, max int) (hs []h1x.Header, raw [
 		for k := 0; k < reps && len(hs) < max+2; k++ {
 			nm := spell(rng, name)
 			v := genValue(rng)
+			if fv, ok := fixedValue(rng, name); ok {
+				v = fv
+			}
 			hs = append(hs, h1x.Header{Name: nm, Value: v})
 			raw = append(raw, renderHeader(rng, nm, v))
 		}
@@ -394,11 +418,23 @@ func generate(rng *rand.Rand, c connCase, thorough bool) *plan {
 			q.Headers = append(q.Headers, h1x.Header{Name: "Accept-Encoding", Value: v})
 			q.Raw = append(q.Raw, renderHeader(rng, spell(rng, "Accept-Encoding"), v))
 		}
+		if c.Idx%10 == 4 && i == 0 {
+			// a fixed share: TRACE / OPTIONS with a numeric Max-Forwards (RFC 7231
+			// 5.1.2 addresses it to intermediaries; this proxy has no modifiers and
+			// must relay the request and the field unchanged)
+			q.Method = []string{"TRACE", "OPTIONS"}[rng.Intn(2)]
+			v := []string{"0", "0", "1", "2", "5"}[rng.Intn(5)]
+			q.Headers = append(q.Headers, h1x.Header{Name: "Max-Forwards", Value: v})
+			q.Raw = append(q.Raw, renderHeader(rng, spell(rng, "Max-Forwards"), v))
+		}
 		q.HostPos = rng.Intn(len(q.Headers) + 1)
 		q.HostLine = renderHeader(rng, []string{"Host", "Host", "host", "HOST"}[rng.Intn(4)], q.Authority)
 		// body
 		bodyMethods := q.Method == "POST" || q.Method == "PUT" || q.Method == "PATCH" || q.Method == "QUERYX"
 		wantBody := bodyMethods && rng.Intn(10) < 8 || !bodyMethods && rng.Intn(10) == 0
+		if q.Method == "TRACE" {
+			wantBody = false // a TRACE request has no body (RFC 7231 4.3.8)
+		}
 		if wantBody {
 			sz := sizeOf(rng, c.Big && bigLeft > 0, thorough)
 			if sz >= 1<<20 {
